@@ -24,9 +24,12 @@ MANIFEST = dict(
          "with atoms inside groups, alternation branches and + bodies (decompose); everything the VM model reports (callback lengths, *matches, also in the scan mode of "
          "`matches`) comes from a reachable fiber at RE_OPCODE_MATCH (vm_reports_reachable, any bytecode); and on the code of the emit model the VM is SOUND for EVERY well-formed expression "
          "(WF: every RE_NODE kind incl. the empty alternative and counted repeats e{n,m} of every emit-table row - prolog copy, REPEAT_START/REPEAT_END loop with the counter on the "
-         "fiber stack, split + epilog - n <= m < 65536, greedy or lazy, nested in any way; code below the emitter's int16 jump range), byte mode, forward code, all buffers, start "
-         "positions and flags, with or without the scan mode (vm_sound; matches_sound: a true `matches` verdict implies a matching substring). "
-         "NOT proved: wide mode, backward code, the fast matcher, VM completeness (epsilon-loops, fiber limits), atom extraction, Aho-Corasick. That gap is covered by SAMPLING on "
+         "fiber stack, split + epilog - n <= m < 65536, greedy or lazy, nested in any way; code below the emitter's int16 jump range), all buffers, start "
+         "positions and flags: forward code in byte mode with or without the scan mode (vm_sound; matches_sound: a true `matches` verdict implies a matching substring), "
+         "forward code with one- or two-byte (wide) characters (vm_sound_forward), and backward code - proved to be the forward code of the mirrored expression - run with "
+         "RE_FLAGS_BACKWARDS, byte or wide (vm_sound_backward: L <= start and the expression matches buf[start-L, start)). "
+         "NOT proved: runs entering the code at an atom's instruction (the forward+backward composition of _yr_scan_verify_re_match; at specification level: decompose), the "
+         "fast matcher, VM completeness (epsilon-loops, fiber limits), atom extraction, Aho-Corasick. That gap is covered by SAMPLING on "
          "every run: generated regexes (<= 12 nodes, all-greedy / all-lazy, anchors, word boundaries, classes, /i /s, nocase ascii wide fullword, atoms forced into groups, "
          "branches and repeats) x buffers (< 1024 bytes) through the real engine vs. the compiled Lean specification (complete match lists, `matches` verdicts through literal "
          "and external operands), the parser AST tie (incl. class bitmaps and greedy flags), the real bytecode through the C VM and the Lean VM model, the whole-expression code "
